@@ -1,5 +1,6 @@
 import BM.Driver.Codec
 import BM.Spec.Oracles
+import BM.Spec.More
 import BM.CssDefault
 import Std.Data.HashMap
 namespace BM.Driver
@@ -7,8 +8,8 @@ open BM BM.Html BM.Spec
 
 structure State where
   policies : Std.HashMap Nat Policy := {}
+  kinds : Std.HashMap Nat String := {}
 
-/-- css.GetDefaultHandler twin (filled in by BM.CssHandlers once modelled) -/
 def dfltHandler : Bytes → Bytes → Bool := defaultHandler
 
 /-! per-property projections of an output: a correspondence mismatch is attributed to a
@@ -41,24 +42,87 @@ def projection (prop : String) (out : Bytes) : String :=
   | "C12" => attrsWhere ts fun _ a => a.key == b!"crossorigin" || a.key == b!"sandbox"
   | _ => hexField out
 
-def allProps : List String :=
-  ["C01", "C02", "C03", "C05", "C06", "C08", "C09", "C10", "C11", "C12"]
+/-- properties whose verdict is a function of (policy, input, output) -/
+def sanProps : List String :=
+  ["C01", "C02", "C03", "C04", "C05", "C06", "C07", "C08", "C09", "C10", "C11", "C12"]
 
-/-- oracles that can be judged from (policy, input, output) alone -/
-def oracle (prop : String) (p : Policy) (inp out : Bytes) : Bool :=
+/-- the style attributes of the output, judged declaration by declaration (C10):
+    property allowlisted for the element or globally, value accepted by a registered matcher
+    after lower-casing and decoding -/
+def oracleC10 (p : Policy) (out : Bytes) : Bool :=
+  (tokenize out).all fun t =>
+    if !(t.tt == .start || t.tt == .selfClosing) then true else
+    t.attrs.all fun a =>
+      if a.key != b!"style" || !hasStyleRules p t.data then true else
+      !a.val.isEmpty &&
+      match Css.parseDeclarations (a.val ++ [59]) with
+      | none => false
+      | some decs =>
+        decs.all fun d =>
+          let prop := trimPrefixes (toLowerGo d.property) vendorPrefixes
+          let rules := (p.styleRulesFor t.data).get? prop |>.getD []
+          let grules := (p.globalStyles.get? prop).getD []
+          match removeUnicode (toLowerGo d.value) with
+          | none => false
+          | some v => stylePoliciesAccept rules v || stylePoliciesAccept grules v
+
+def oracle (kind : String) (prop : String) (p : Policy) (inp out : Bytes) : Bool :=
   match prop with
   | "C01" => p.allowUnsafe || oracleC01 p out
   | "C02" => p.allowUnsafe || oracleC02 p inp out
   | "C03" => p.allowUnsafe || oracleC03 p out
+  | "C04" => if kind == "@STRICT" then oracleC04strict out
+             else if kind == "@UGC" then oracleC04ugc out else true
   | "C05" => p.allowUnsafe || oracleC05 inp out
   | "C06" => oracleC06 p inp out
+  | "C07" => oracleC07 p inp out
   | "C08" => oracleC08 p inp out
   | "C09" => p.allowUnsafe || oracleC09 inp out
+  | "C10" => p.allowUnsafe || oracleC10 p out
   | "C11" => p.allowUnsafe || oracleC11 p out
   | "C12" => p.allowUnsafe || oracleC12 p out
   | _ => true
 
+/-! ### known-finding classes (matched against /verif/known_findings.txt by the check) -/
+
+/-- some element name occurs as an open start tag inside an open element of the same name -/
+def sameNameNesting : List Bytes → List Token → Bool
+  | _, [] => false
+  | stack, t :: ts =>
+    match t.tt with
+    | .start =>
+      if voidElements.contains t.data then sameNameNesting stack ts
+      else stack.contains t.data || sameNameNesting (t.data :: stack) ts
+    | .end_ => sameNameNesting stack.tail ts
+    | _ => sameNameNesting stack ts
+
+def hasBackslashAuthority (out : Bytes) : Bool :=
+  (tokenize out).any fun t => t.attrs.any fun a =>
+    a.key == b!"href" &&
+    (let v := (a.val.dropWhile isC0OrSpace)
+     match classifyUrl v with
+     | .scheme s => ((v.drop (s.length + 1)).take 2).contains 92
+     | .relative => (v.take 2).contains 92)
+
+def knownClass (prop : String) (p : Policy) (inp out : Bytes) : Option String :=
+  let _ := p
+  match prop with
+  | "C09" => if sameNameNesting [] (tokenize inp) then some "same-name-nesting" else none
+  | "C11" => if hasBackslashAuthority out then some "backslash-authority" else none
+  | _ => none
+
 def joinOrDash (xs : List String) : String := if xs.isEmpty then "-" else String.intercalate "," xs
+
+def verdict (corrOk : Bool) (model : String) (orcFails : List String) (known : List String) : String :=
+  (if corrOk then "ok" else "DIFF:" ++ model) ++ " orc=" ++ joinOrDash orcFails ++
+    (if known.isEmpty then "" else " known=" ++ String.intercalate "," known)
+
+def boolField (s : String) : Option Bool := if s == "1" then some true else if s == "0" then some false else none
+
+def getPolicy (st : State) (pid : String) : Option Policy := pid.toNat?.bind (st.policies.get? ·)
+
+def urlAttrVals (out : Bytes) : List Bytes :=
+  (tokenize out).flatMap fun t => (t.attrs.filter fun a => isUrlPosition t.data a.key).map (·.val)
 
 def handleLine (st : State) (line : String) : State × String :=
   match line.splitOn " " with
@@ -72,9 +136,23 @@ def handleLine (st : State) (line : String) : State × String :=
     match unhexField prop, unhexField val with
     | some pr, some v =>
       let r := if defaultHandler pr v then "1" else "0"
-      (st, if r == impl then "ok" else "DIFF " ++ r)
+      -- C18: whatever the real handler accepts must be inert
+      let bad := impl == "1" && !inert v
+      (st, verdict (r == impl) r (if bad then ["C18"] else []) [])
     | _, _ => (st, "bad-hdl")
   | ["policy", pid, ops, dump] =>
+    if ops.startsWith "@" then
+      match pid.toNat?, shippedPolicy ops with
+      | some pid, some p =>
+        let st := { st with policies := st.policies.insert pid p, kinds := st.kinds.insert pid ops }
+        if dump == "-" then (st, "ok") else
+        match unhexField dump with
+        | some dump =>
+          let d := dumpPolicyWith nameBySource p
+          (st, if strBytes d == dump then "ok" else "DIFF " ++ d)
+        | none => (st, "bad-policy")
+      | _, _ => (st, "bad-policy")
+    else
     match pid.toNat?, parseOps ops, unhexField dump with
     | some pid, some ops, some dump =>
       let p := applyOps dfltHandler newPolicy ops
@@ -83,31 +161,158 @@ def handleLine (st : State) (line : String) : State × String :=
         if strBytes d == dump then "ok" else "DIFF " ++ d)
     | _, _, _ => (st, "bad-policy")
   | ["san", pid, inp, impl] =>
-    match pid.toNat?.bind (st.policies.get? ·), unhexField inp with
+    match getPolicy st pid, unhexField inp with
     | some p, some b =>
+      let kind := (pid.toNat?.bind (st.kinds.get? ·)).getD ""
       let modelPanics := p.panics b
       if impl == "PANIC" then
-        (st, if modelPanics then "ok-panic proj=- orc=C14" else "DIFF-panic proj=all orc=C14")
+        (st, if modelPanics then "ok proj=- orc=C14" else "DIFF:panic proj=all orc=C14")
       else match unhexField impl with
       | none => (st, "bad-san")
       | some impl =>
-        if modelPanics then (st, "DIFF-modelpanic proj=all orc=-") else
+        if modelPanics then (st, "DIFF:modelpanic proj=all orc=-") else
         let out := p.sanitize b
         let projs := if out == impl then [] else
-          (allProps.filter fun pr => projection pr out != projection pr impl)
-        let orcs := allProps.filter fun pr => !oracle pr p b impl
+          (sanProps.filter fun pr => projection pr out != projection pr impl)
+        let orcs := sanProps.filter fun pr => !oracle kind pr p b impl
+        let known := orcs.filterMap fun pr => (knownClass pr p b impl).map fun c => pr ++ ":" ++ c
         (st, (if out == impl then "ok" else "DIFF:" ++ hexField out) ++
-             " proj=" ++ joinOrDash projs ++ " orc=" ++ joinOrDash orcs)
+             " proj=" ++ joinOrDash projs ++ " orc=" ++ joinOrDash orcs ++
+             (if known.isEmpty then "" else " known=" ++ String.intercalate "," known))
     | _, _ => (st, "bad-san")
+  | ["idem", pid, inp, o1, o2] =>
+    match getPolicy st pid, unhexField inp, unhexField o1, unhexField o2 with
+    | some p, some b, some o1, some o2 =>
+      let kind := (pid.toNat?.bind (st.kinds.get? ·)).getD ""
+      let m1 := p.sanitize b
+      let m2 := p.sanitize m1
+      let inClass := kind == "@STRICT" || inClassC20 p ||
+        (kind == "@UGC" && !(tokenize o1).any fun t =>
+          (t.data == b!"del" || t.data == b!"ins") && t.attrs.any (·.key == b!"cite"))
+      let bad := inClass && o1 != o2
+      let unstable := (urlAttrVals o1).any fun v => (Url.parse v).map Url.print != some v
+      (st, verdict (m1 == o1 && m2 == o2) (hexField m1 ++ "/" ++ hexField m2)
+        (if bad then ["C20"] else []) (if bad && unstable then ["C20:url-reprint-unstable"] else []))
+    | _, _, _, _ => (st, "bad-idem")
+  | ["entry", pid, inp, oS, oB, oR, oW, oW2, okf, _mode] =>
+    match getPolicy st pid, unhexField inp, unhexField oS, unhexField oB, unhexField oR, unhexField oW, unhexField oW2 with
+    | some p, some b, some oS, some oB, some oR, some oW, some oW2 =>
+      let blank := (Css.trimSpace b).isEmpty
+      let mS := p.sanitize b
+      let mR := p.sanitizeCore b
+      let corr := mS == oS && mS == oB && mR == oR && mR == oW && mR == oW2
+      let agree := if blank then oS == b && oB == b && oR == oW && oW == oW2
+                   else oS == oB && oB == oR && oR == oW && oW == oW2
+      (st, verdict corr (hexField mS) (if agree && okf == "1" then [] else ["C15"]) [])
+    | _, _, _, _, _, _, _ => (st, "bad-entry")
+  | ["fault", pid, inp, k, perm, _sw, errf, calls, acc, full] =>
+    match getPolicy st pid, unhexField inp, k.toNat?, boolField perm, boolField errf, calls.toNat?, unhexField acc, unhexField full with
+    | some p, some b, some k, some perm, some err, some calls, some acc, some full =>
+      let (ws, _) := p.run {} (tokenize b)
+      let (macc, mcalls, merr) := feed (some k) perm 0 ws
+      let corr := macc.flatten == acc && mcalls == calls && merr == err
+      let total := ws.length
+      -- the property: a failure at an index that is reached is reported, nothing is written
+      -- after it, and what was accepted is a prefix of the fault-free output
+      let good := (if k < total then err && calls == k + 1 else !err) && hasPrefix acc full
+      (st, verdict corr (hexField macc.flatten ++ "/" ++ toString mcalls) (if good then [] else ["C16"]) [])
+    | _, _, _, _, _, _, _, _ => (st, "bad-fault")
+  | ["rfault", pid, inp, off, _wd, errf, written, rlen] =>
+    match getPolicy st pid, unhexField inp, off.toNat?, boolField errf, unhexField written, rlen.toNat? with
+    | some p, some b, some off, some err, some written, some rlen =>
+      -- the tokenizer treats the bytes delivered before the failure as the whole input
+      let m := p.sanitizeCore (b.take off)
+      (st, verdict (m == written) (hexField m) (if err && rlen == 0 then [] else ["C16"]) [])
+    | _, _, _, _, _, _ => (st, "bad-rfault")
+  | ["conc", pid, inp, seq, eq] =>
+    match getPolicy st pid, unhexField inp, unhexField seq with
+    | some p, some b, some seq =>
+      let m := p.sanitize b
+      (st, verdict (m == seq) (hexField m) (if eq == "1" then [] else ["C13"]) [])
+    | _, _, _ => (st, "bad-conc")
+  | ["perm", pa, pb, inp, oa, ob] =>
+    match getPolicy st pa, getPolicy st pb, unhexField inp with
+    | some p, some q, some b =>
+      if oa == "PANIC" || ob == "PANIC" then (st, "ok orc=C14") else
+      match unhexField oa, unhexField ob with
+      | some oa, some ob =>
+        let ma := p.sanitize b
+        let mb := q.sanitize b
+        (st, verdict (ma == oa && mb == ob) (hexField ma ++ "/" ++ hexField mb) (if oa == ob then [] else ["C17"]) [])
+      | _, _ => (st, "bad-perm")
+    | _, _, _ => (st, "bad-perm")
+  | ["time", pid, inp, impl, _us] =>
+    match getPolicy st pid, unhexField inp with
+    | some p, some b =>
+      let modelPanics := p.panics b
+      if impl == "PANIC" then (st, verdict modelPanics "nopanic" ["C14"] [])
+      else match unhexField impl with
+        | some impl =>
+          let m := p.sanitize b
+          (st, verdict (!modelPanics && m == impl) (hexField m) [] [])
+        | none => (st, "bad-time")
+    | _, _ => (st, "bad-time")
+  | ["url", inp, res, hostf] =>
+    match unhexField inp with
+    | some b =>
+      match Url.parse b with
+      | none => (st, verdict (res == "err") "err" [] [])
+      | some u =>
+        let pr := Url.print u
+        let h := if u.host.isEmpty then "0" else "1"
+        (st, verdict (res == hexField pr && hostf == h) (hexField pr ++ "/" ++ h) [] [])
+    | none => (st, "bad-url")
+  | ["vurl", pid, inp, res] =>
+    match getPolicy st pid, unhexField inp with
+    | some p, some b =>
+      let m := match p.validURL b with
+        | none => "none"
+        | some v => hexField v
+      -- C03: whatever validURL lets through must be acceptable to the spec-side classifier
+      let bad := p.requireParseableURLs && res != "none" &&
+        (match unhexField res with | some v => !urlOk p v | none => true)
+      (st, verdict (m == res) m (if bad then ["C03"] else []) [])
+    | _, _ => (st, "bad-vurl")
+  | ["uni", inp, res] =>
+    match unhexField inp with
+    | some b =>
+      let m := match removeUnicode b with
+        | none => "fail"
+        | some v => hexField v
+      (st, verdict (m == res) m [] [])
+    | none => (st, "bad-uni")
+  | ["style", pid, el, val, res] =>
+    match getPolicy st pid, unhexField el, unhexField val, unhexField res with
+    | some p, some el, some val, some res =>
+      let m := p.sanitizeStyles val el
+      (st, verdict (m == res) (hexField m) [] [])
+    | _, _, _, _ => (st, "bad-style")
+  | [kindw, name, val, impl] =>
+    if kindw == "mat" || kindw == "matex" then
+      match unhexField val, Gen.exportedMatchers.find? (·.1 == name) with
+      | some v, some (_, re) =>
+        let m := if Re.matchBytes re v then "1" else "0"
+        let doc := (matcherDocForm name v).getD false
+        -- accepted ⇒ of the documented form; documented examples must be accepted
+        let bad := (impl == "1" && !doc) || (kindw == "matex" && impl != "1")
+        let fold := (decodeRunes v).any fun r => r == 0x17F || r == 0x212A
+        (st, verdict (m == impl) m (if bad then ["C19"] else [])
+          (if bad && fold then ["C19:nonascii-casefold"] else []))
+      | _, _ => (st, "bad-mat")
+    else (st, "bad-op")
   | _ => (st, "bad-op")
 
 partial def loop (h : IO.FS.Stream) (out : IO.FS.Stream) (st : State) : IO Unit := do
   let line ← h.getLine
   if line.isEmpty then return ()
   let l := (line.dropEndWhile fun c => c == '\n' || c == '\r').toString
-  let (st', r) := handleLine st l
-  out.putStrLn r
-  loop h out st'
+  if l.startsWith "#" then
+    out.putStrLn "ok"
+    loop h out st
+  else
+    let (st', r) := handleLine st l
+    out.putStrLn r
+    loop h out st'
 
 def main : IO Unit := do
   let stdin ← IO.getStdin
